@@ -1557,6 +1557,24 @@ class C11(Prop):
                             break
                 if allfound and any(not g.startswith("A:") for g in slots):
                     res.oracle_failures.append(dict(key=f"C11|{fld}|slot-empty-although-path-resolves", case=case, detail=f"impl {got[:300]}"))
+            # the walker model (Impl/Many.lean `walk`) on the specification's tree: against the implementation (correspondence),
+            # against the tree-level single-path lookup (an instance of `walker_refines_lookup`) and that lookup against the text-level one
+            walk = M.get("walk")
+            if walk is not None and walk != "notree":
+                res.distribution["walker-model:" + ("Err" if walk == "Err" else "ok")] += 1
+                look, specd = M.get("look", ""), M.get("specd", "")
+                if look != specd:
+                    res.model_disagreements.append(dict(key="c11:tree-lookup-vs-text-lookup", case=case, detail=f"lookJ {look[:200]} lookup {specd[:200]}"))
+                wpat = "Err" if walk == "Err" else ",".join(x[:1] for x in walk.split(";"))
+                for fld in ("many", "manyu"):
+                    got = I.get(fld)
+                    if got is None or got == "skip" or got.startswith("LEN"):
+                        continue
+                    ipat = "Err" if got == "Err" else ",".join(x[:1] for x in got.split(","))
+                    if ipat != wpat:
+                        res.model_disagreements.append(dict(key=f"c11:walker-model-vs-{fld}", case=case, detail=f"impl {ipat[:120]} model {wpat[:120]}"))
+                if walk != "Err" and walk != look:
+                    res.model_disagreements.append(dict(key="c11:walker-model-vs-single-lookup", case=case, detail=f"walk {walk[:200]} look {look[:200]}"))
 
 
 # ------------------------------------------------------------------------------------------
@@ -1814,7 +1832,9 @@ class C01(Prop):
             "tokens of every length 0..70 (0..200 thorough) and around 128/256/1024/4096/8192 of seven fill bytes, generated documents and single / "
             "double mutations / truncations of them; each input three times: on the ordinary heap, ending exactly at an unmapped page and starting "
             "exactly after one (any read outside the buffer faults); panics are caught per entry point, the allocation balance of the second run of "
-            "the library calls must be zero; documents nested 100 .. 2,000,000 levels ([, {\"a\":, and mixed; closed and unclosed) with every entry "
+            "the library calls must be zero; results that may outlive their producer by type (keys of to_object_iter / into_object_iter for every carrier, "
+            "borrowed strings of Deserializer::from_json / from_str for every carrier) are re-read after the producer is dropped, with an allocator that "
+            "overwrites freed memory; documents nested 100 .. 2,000,000 levels ([, {\"a\":, and mixed; closed and unclosed) with every entry "
             "point in its own child process (8 MiB stack, 20 s); non-trivial = every case")
     trusted = ["guard pages detect reads and writes outside the input buffer only at page granularity on the side that abuts the unmapped page (hence both "
                "placements); accesses inside the library's own heap blocks are checked by the allocator's consistency only",
@@ -1859,7 +1879,11 @@ class C01(Prop):
                 continue
             if I.get("panics") != "-":
                 for ep in I.get("panics", "").split(","):
-                    res.oracle_failures.append(dict(key=f"C01|panic|{ep}", case=case, detail=f"entry point {ep} panicked"))
+                    if ep.startswith("dangling-"):
+                        res.oracle_failures.append(dict(key=f"C01|use-after-free|{ep}", case=case,
+                                                        detail=f"{ep}: a result that may outlive the iterator / deserializer by its type reads different bytes after it was dropped (freed memory is overwritten by the harness allocator)"))
+                    else:
+                        res.oracle_failures.append(dict(key=f"C01|panic|{ep}", case=case, detail=f"entry point {ep} panicked"))
             if I.get("leak") != "0":
                 res.oracle_failures.append(dict(key="C01|leak", case=case, detail=f"allocation balance of the library calls: {I.get('leak')} bytes"))
 
